@@ -85,11 +85,18 @@ def h_no_fault_on_any_path(c0: bool, c1: bool, c2: bool, c3: bool, c4: bool, c5:
     return True
 
 
-def h_complete_exhaustive() -> bool:
-    """native re-establishment of 'no decision vector faults' (used only when the solver found no witness)"""
+def h_complete_exhaustive():
+    """native re-establishment of 'no decision vector faults' (used only when the solver found no witness): True = a witness
+    exists, False = none and no path was cut off by the bound, 'inconclusive' = none within the bound but longer paths exist"""
     global LAST_DETAIL
+    cut = False
     for cs in itertools.product([False, True], repeat=L):
-        if e6.run_oracle(FNS[WHICH], list(cs)).startswith("fault"):
+        r = e6.run_oracle(FNS[WHICH], list(cs))
+        if r.startswith("fault"):
             return True
+        cut = cut or r == "out-of-choices"
+    if cut:
+        LAST_DETAIL = f"no witness with {L} decisions, longer paths exist"
+        return "inconclusive"
     LAST_DETAIL = f"REJECTED by the real checker with {VERDICT[WHICH][1]}, but no decision vector of length {L} makes the path oracle fault:\n{SRCS[WHICH]}"
     return False
